@@ -40,6 +40,10 @@ Record entry := { eid : Z; ekind : Z; eseq : Z; epos : Z; ecnt : Z }.
 Definition is_msg (e : entry) : bool := (ekind e =? 0) || (ekind e =? 2) || (ekind e =? 4).
 Definition upd_of (e : entry) : upd :=
   {| uid := eid e; ust := epos e; ucnt := if eseq e =? 1 then 1 else ecnt e |}.   (* handleQts: Count 1 *)
+(* the affectedPts marker of Manager.HandleAffected for the entry that is our own action: same
+   position and count, nothing to dispatch (negative uid) *)
+Definition mark_of (e : entry) : upd :=
+  {| uid := - eid e - 1; ust := epos e; ucnt := if eseq e =? 1 then 1 else ecnt e |}.
 
 Record config := {
   nseq : Z;                 (* sequences 0 .. nseq-1 exist (2 + number of channels) *)
@@ -62,7 +66,13 @@ Record config := {
 }.
 Definition SEQ : Z := -2.   (* key of the seq box; the server's seq horizon is vis (nseq c) *)
 
-Inductive tev := Deliver (s id : Z) | Persist (s v : Z) | TooLong (s from to : Z).
+Inductive tev :=
+| Deliver (s id : Z)
+| Persist (s v : Z)
+| TooLong (s from to : Z)
+| Skip (s id : Z).      (* the position range of entry id was consumed by the result of our own
+                           action (a messages.affected result): applyPts advances over the marker
+                           without dispatching anything; not observable at the handler *)
 
 Record mgr := { mbox : Z -> box; mtr : list tev; moof : bool;
                 mtracked : Z -> bool;                          (* channel workers that exist *)
@@ -88,7 +98,7 @@ Definition mgr_init (c : config) : mgr :=
    (applyQts does not store a zero qts) *)
 Definition evs_trace (s : Z) (evs : list bev) : list tev :=
   flat_map (fun ev => match ev with
-                      | Dlv st us => map (fun u => Deliver s (uid u)) us ++
+                      | Dlv st us => map (fun u => if uid u <? 0 then Skip s (- uid u - 1) else Deliver s (uid u)) us ++
                                      (if (s =? 1) && (st =? 0) then [] else [Persist s st])
                       | Pnc => []
                       end) evs.
@@ -204,9 +214,17 @@ Definition route_key (e : entry) : Z :=
   else if eseq e =? 1 then 2 * 1048576 + epos e
   else (1 + eseq e) * 1048576 + (epos e - ecnt e).
 
-Definition box_item (m : mgr) (s : Z) (e : entry) : mgr :=
-  let '(b', evs) := handle (mbox m s) (upd_of e) in
+Definition box_upd (m : mgr) (s : Z) (u : upd) : mgr :=
+  let '(b', evs) := handle (mbox m s) u in
   emit (set_box m s b') (evs_trace s evs).
+Definition box_item (m : mgr) (s : Z) (e : entry) : mgr := box_upd m s (upd_of e).
+
+(* Manager.HandleAffected(channel, pts, count) for the log entry id: internalState.handleAffected
+   feeds the marker to the pts box; for a channel with a worker, to that channel's box (on the
+   worker goroutine); a channel without worker: ignored *)
+Definition affected (c : config) (m : mgr) (e : entry) : mgr :=
+  let s := eseq e in
+  if (s =? 0) || ((2 <=? s) && (s <? nseq c) && mtracked m s) then box_upd m s (mark_of e) else m.
 
 Definition push_item (c : config) (log : list entry) (vis : Z -> Z) (m : mgr) (e : entry) : mgr :=
   let s := eseq e in
@@ -258,7 +276,8 @@ Inductive mop :=
 | MTimerChan (vis : Z -> Z) (s : Z)
 | MStartup (vis : Z -> Z)
 | MFailCommon (vis : Z -> Z)             (* a getDifference whose RPC fails: gaps cleared, nothing else *)
-| MFailChan (vis : Z -> Z) (s : Z).      (* a channel getDifference whose RPC fails *)
+| MFailChan (vis : Z -> Z) (s : Z)       (* a channel getDifference whose RPC fails *)
+| MAffected (vis : Z -> Z) (id : Z).     (* Manager.HandleAffected for log entry id *)
 
 Definition chan_seqs (c : config) : list Z := map (fun i => 2 + Z.of_nat i) (seq 0 (Z.to_nat (nseq c - 2))).
 
@@ -276,6 +295,7 @@ Definition mstep (c : config) (log : list entry) (m : mgr) (o : mop) : mgr :=
               (get_diff (fuel_of log) c log vis m)
   | MFailCommon _ => clear_gaps (clear_gaps (clear_gaps m 0) 1) SEQ
   | MFailChan _ s => if (2 <=? s) && (s <? nseq c) && mtracked m s then clear_gaps m s else m
+  | MAffected _ id => fold_left (affected c) (find_entry log id) m
   end.
 Definition mrun (c : config) (log : list entry) (ops : list mop) : mgr :=
   fold_left (mstep c log) ops (mgr_init c).
@@ -285,7 +305,7 @@ Definition mrun (c : config) (log : list entry) (ops : list mop) : mgr :=
 Definition persisted (c : config) (s : Z) (tr : list tev) : Z :=
   fold_left (fun acc ev => match ev with Persist s' v => if s' =? s then v else acc | _ => acc end) tr (base c s).
 Definition accounted (s : Z) (e : entry) (tr : list tev) : Prop :=
-  In (Deliver s (eid e)) tr \/ exists f t, In (TooLong s f t) tr /\ f < epos e <= t.
+  In (Deliver s (eid e)) tr \/ In (Skip s (eid e)) tr \/ exists f t, In (TooLong s f t) tr /\ f < epos e <= t.
 (* C03: the persisted position of s covers only entries already delivered or reported too long *)
 Definition safe_at (c : config) (log : list entry) (tr : list tev) : Prop :=
   forall s e, In e log -> eseq e = s -> 0 <= s -> base c s < epos e <= persisted c s tr -> accounted s e tr.
